@@ -143,6 +143,14 @@ def t_r1(p: Project, rep: Report):
         ok = h is not None and not h.always_raises()
         rep.check("T-R1", f"{name}.unconvert[{nk}]", ok, f"writing a native {nk} selects {h.qualname if h else None}, which raises on every path" if not ok else "", tloc(p, ci.node))
         rep.unit("handlers", len(conv.table) + len(unc.table))
+        # nothing else is registered: a handler for a foreign type makes the element accept (and write) values that
+        # are not of its type - the default handler's refusal (T-R5) is then bypassed for that type
+        allowed = {D.DEFAULT, "None", "str", nk}
+        for famname, fam in (("convert", conv), ("unconvert", unc)):
+            for key, hh in fam.table.items():
+                if key in allowed or hh.always_raises():
+                    continue
+                rep.check("T-R1", f"{name}.{famname}[{key}]:foreign-type", False, f"{hh.qualname} is registered for {key}, which is not {name}'s type ({nk}): a {key} value given to a {name} element is accepted / written instead of refused", tloc(p, hh.fn))
 
 
 def t_r2(p: Project, rep: Report):
@@ -392,6 +400,13 @@ def t_r4(p: Project, rep: Report):
     if fn is None:
         raise AnalysisError("Integer.enforce_length not found")
     vp = params_of(fn)[1]
+    # digits counted through a floating-point logarithm: math.log(x, 10) is inexact AT the powers of ten
+    # (math.log(1000, 10) == 2.9999999999999996), so the first value beyond a limit of 3 digits passes, and any float
+    # route loses integers beyond 2**53
+    for c_ in ast.walk(fn):
+        if isinstance(c_, ast.Call) and (dotted(c_.func) or "").split(".")[-1] == "log" and len(c_.args) == 2 and any(isinstance(x_, ast.Name) and x_.id == vp for x_ in ast.walk(c_.args[0])):
+            rep.check("T-R4", "Integer.enforce_length:comparison", False, f"the number of digits is computed as {text(c_)[:50]}: a two-argument math.log is a quotient of floating-point logarithms and falls short exactly at powers of the base (math.log(1000, 10) = 2.9999999999999996 -> 3 digits), so 10**n is accepted by an Integer(n) for n = 3, 6, 9, 13, 15 ...", tloc(p, c_))
+            return
     guard_table(p, rep, "T-R4", "Integer.enforce_length", i, fn, {"raise": f"self.length is not None and {vp} >= 10 ** self.length"},
                 # also mis-spelt: counting the characters of str(value) - the minus sign of a negative value is not a digit
                 lambda a: ("10 **" in a or "10**" in a or f"len(str({vp}))" in a.replace(" ", "")), tloc(p, fn))
@@ -493,6 +508,111 @@ def t_r7(p: Project, rep: Report):
             ok, why = False, f"a path returns {rtxt[:80]}: the (decoded) text is not what enforce_length checked"
         else:
             arg = m.group(1)
-            ok = "unescape(" in arg or ".replace(" in arg
+            ok = "unescape(" in arg or ".replace(" in arg or not _entity_decoders(h.ffn)  # nothing decoded here: the limit is tested on what is returned
             why = f"enforce_length is applied to {arg[:60]}: the limit is tested before entities are decoded, so a valid value such as 'AT&T' at the limit ('AT&amp;T' on the wire) is rejected"
         rep.check("T-R7", f"String.convert[str]:length-on-decoded-text#{i}", ok, why if not ok else "", tloc(p, h.fn))
+
+
+# --------------------------------------------------------------------------
+def _entity_decoders(fn):
+    """calls inside fn that decode entity references: <x>.unescape(...) / unescape(...) / .replace('&...;', ...)"""
+    out = []
+    for x in ast.walk(fn):
+        if not isinstance(x, ast.Call):
+            continue
+        f = x.func
+        nm = f.attr if isinstance(f, ast.Attribute) else (f.id if isinstance(f, ast.Name) else "")
+        if nm == "unescape":
+            out.append(x)
+        elif nm == "replace" and x.args and isinstance(x.args[0], ast.Constant) and isinstance(x.args[0].value, str) and re.fullmatch(r"&#?\w+;", x.args[0].value):
+            out.append(x)
+    return out
+
+
+def t_r10_supplied_text_kept(p: Project, rep: Report):
+    """a value the CALLER supplies is stored as given; only text that came off the wire is entity-decoded"""
+    rep.rule("T-R10", "a string the caller supplies (keyword of a model constructor, attribute assignment) is kept as given: the descriptor's __set__ hands every value - the caller's and the parser's alike - to convert(); a str reader reached that way therefore must not decode entity references, or else a supplied 'a&amp;b' is stored (and sent) as 'a&b'. Holds when no str reader decodes, or when __set__ / the constructors tell the two routes apart")
+    scal, types = scalar_types(p)
+    el = p.get_class(D.TYPES, "Element")
+    setter = next((x for x in el.node.body if isinstance(x, ast.FunctionDef) and x.name == "__set__"), None)
+    if setter is None:
+        raise AnalysisError("Element.__set__ not found")
+    vp = [a.arg for a in setter.args.args][2:3]
+    # the shared route: __set__ stores self.convert(<its value argument>) with no other branch
+    calls = [x for x in ast.walk(setter) if isinstance(x, ast.Call) and text(x.func) == "self.convert"]
+    shared = len(calls) == 1 and vp and [text(a) for a in calls[0].args] == vp and not any(isinstance(x, (ast.If, ast.IfExp, ast.Try, ast.Match)) for x in ast.walk(setter))
+    n = 0
+    seen = set()
+    for name, ci in scal.items():
+        fam = D.family(ci, "convert")
+        h = fam.get("str") if fam else None
+        if h is None:
+            continue
+        n += 1
+        if h.qualname in seen:
+            continue
+        seen.add(h.qualname)
+        name = f"{h.cls.name}.convert[str]"
+        dec = _entity_decoders(h.ffn)
+        if not dec:
+            rep.check("T-R10", f"{name}:supplied-text-kept", True, "", tloc(p, h.fn))
+        elif shared:
+            rep.check("T-R10", f"{name}:supplied-text-kept", False, f"{h.qualname} decodes entity references ({text(dec[0])[:50]}...) and Element.__set__ sends every assigned value through convert(): string values given by the caller (user id, password, account id, memo ...) that contain text like '&amp;' or '&lt;' are stored decoded - the request then says 'a&b' where the caller said 'a&amp;b'", tloc(p, h.fn))
+        else:
+            rep.note(f"T-R10 undecided: {h.qualname} decodes entities and Element.__set__ is not the plain `self.convert(value)` store; the routes may be told apart")
+    rep.floor("T-R10", n, 6, "str readers")
+
+
+def _resolve_expr(p: Project, modname: str, e):
+    """the repo object a dotted expression denotes at module level (ClassInfo / ModRef / ...), or None"""
+    from .source import ModRef
+
+    d = dotted(e)
+    if d is None:
+        return None
+    parts = d.split(".")
+    cur = p.resolve(modname, parts[0])
+    for a in parts[1:]:
+        if isinstance(cur, ModRef):
+            cur = p.resolve(cur.name, a)
+        else:
+            return None
+    return cur
+
+
+def t_r4b_guards_constant(p: Project, rep: Report):
+    """the switches the limit guards read are declarations, not run-time state"""
+    rep.rule("T-R4b", "the attributes the limit guards read on the element type itself (`strict`; `length` / `required` outside the declaration's own __init__) are class-body declarations: no function of the package assigns them on an element class (String.strict = ..., setattr(Types.String, 'strict', ...)) or on `self`/`cls` inside an element type's method - a process-wide switch that a failing call leaves flipped makes every later over-long value pass")
+    types = D.element_types(p)
+    by_node = {id(ci.node): n for n, ci in types.items()}
+    names = {"strict", "length", "required", "valid", "scale", "mapping"}
+    sites = 0
+    for modname, m in p.modules.items():
+        for qn, cls, fn in m.functions():
+            in_type = cls is not None and id(cls) in by_node
+            for st in ast.walk(fn):
+                tgts = []
+                if isinstance(st, (ast.Assign, ast.AugAssign, ast.AnnAssign, ast.Delete)):
+                    ts = st.targets if isinstance(st, (ast.Assign, ast.Delete)) else [st.target]
+                    tgts = [(t.value, t.attr) for t in ts if isinstance(t, ast.Attribute)]
+                elif isinstance(st, ast.Call) and text(st.func) in ("setattr", "delattr") and len(st.args) >= 2 and isinstance(st.args[1], ast.Constant):
+                    tgts = [(st.args[0], st.args[1].value)]
+                for base, attr in tgts:
+                    if attr not in names:
+                        continue
+                    who = None
+                    if isinstance(base, ast.Name) and base.id in ("self", "cls") and in_type:
+                        if fn.name == "__init__" or attr != "strict" and fn.name in ("__init__", "__set_name__"):
+                            continue
+                        who = f"{by_node[id(cls)]} (through {base.id})"
+                    elif isinstance(base, ast.Call) and text(base.func) in ("type",) and in_type:
+                        who = f"{by_node[id(cls)]} (through type(self))"
+                    else:
+                        r = _resolve_expr(p, modname, base)
+                        if isinstance(r, ClassInfo) and id(r.node) in by_node:
+                            who = r.name
+                    if who is None:
+                        continue
+                    sites += 1
+                    rep.check("T-R4b", f"{who.split(' ')[0]}.{attr}:assigned-in:{modname.split('.')[-1]}.{qn}", False, f"{qn} assigns {who}.{attr} at run time: the guard's switch becomes state shared by every element of that type in the process - a call that raises before restoring it (or another thread) leaves every later value unchecked / checked differently", tloc(p, st))
+    rep.check("T-R4b", "guard-switches:declarations-only", sites == 0, "", f"{len(types)} element types, {len(p.modules)} modules searched")
